@@ -51,6 +51,10 @@ PRELUDES = {   # name: (code, leaky?)
     'suppress-label': ("suppress(label='unused_variable')\nsuppress('specification', 'assert_equal')\n", True),
     'override-core': ("from pedal.core.feedback import Feedback\nFeedback.override(title='BASE OVERRIDE')\nexplain.override(title='CHILD OVERRIDE')\n", True),
     'override-tool': ("from pedal.tifa.feedbacks import unused_variable\nfrom pedal.assertions.runtime import assert_equal as _ae\nunused_variable.override(muted=False, priority='highest', title='UNUSED!')\n_ae.override(title='EQ OVERRIDE')\n", True),
+    'override-twice': ("from pedal.core.commands import set_correct as _sc\n_sc.override(message_template='First wording.')\n_sc.override(message_template='Second wording.', title='Twice')\n"
+                       "explain.override(title='T1')\nexplain.override(title='T2', priority='high')\n", True),
+    'override-runtime': ("from pedal.sandbox.feedbacks import runtime_error as _re\nfrom pedal.source.feedbacks import syntax_error as _se\n"
+                         "_re.override(message_template='Custom runtime text: {exception_name}')\n_se.override(message_template='Custom syntax text')\n", True),
     'override-pool': ("MAIN_REPORT.set_pools(['A'])\nexplain.override_for_pool('A', title='POOL TITLE')\ngently.override_for_pool('A', message='POOL MESSAGE')\n", True),
     'formatter': ("from pedal.core.formatting import HtmlFormatter\nset_formatter(HtmlFormatter)\n", True),
     'mock-function': ("get_sandbox().mock_function('len', lambda x: 99)\nget_sandbox().block_function('sum')\nrun()\n", True),
